@@ -22,13 +22,20 @@ type vpTable struct {
 	next   uint64
 	max    int
 	effMax int
+	base   uint64 // ids in [base, next) are exactly the live and the free ones
 }
 
 var vpTablePaths = []string{"/p0", "/p1", "/p2"}
 
 // vpArbitraryTable builds a handle table with n live entries whose ids are symbolic, a free
 // heap of m symbolic ids, symbolic nextHandle and maxHandles, constrained only by the
-// representation invariant the real code maintains.
+// representation invariant the real code maintains: ids pairwise distinct, live and free
+// disjoint, all below nextHandle, pathHandles the inverse of handles, the heap root is the
+// minimum, and *density*: ids are handed out as nextHandle++ and every id that stops being
+// live goes to the free heap, so the live and free ids together are exactly the window
+// [base, nextHandle) (base moves up only when ReleaseAll forgets the free heap). Without
+// density a pre-state could hold live ids 2^40 apart, which no history produces and on
+// which the eviction scan `for h := minHandle; ...; h++` would run 2^40 times.
 func vpArbitraryTable(maxN, maxM int) *vpTable {
 	n := vpChoose("n", 0, maxN)
 	m := vpChoose("m", 0, maxM)
@@ -37,10 +44,12 @@ func vpArbitraryTable(maxN, maxM int) *vpTable {
 	t.effMax = vpIteInt(t.max <= 0, DefaultMaxHandles, t.max)
 	vpAssume(n <= t.effMax) // the bound holds before the step
 	vpAssume(vpAnd(t.next >= 1, t.next < 1<<62))
+	vpAssume(t.next >= uint64(n+m)+1)
+	t.base = t.next - uint64(n+m)
 	fm := &FileHandleMap{handles: map[uint64]absfs.File{}, pathHandles: map[string]uint64{}, nextHandle: t.next, maxHandles: t.max}
 	for i := 0; i < n; i++ {
 		id := vpU64("id")
-		vpAssume(vpAnd(id >= 1, id < t.next))
+		vpAssume(vpAnd(id >= t.base, id < t.next))
 		for _, o := range t.ids {
 			vpAssume(id != o)
 		}
@@ -53,7 +62,7 @@ func vpArbitraryTable(maxN, maxM int) *vpTable {
 	h := uint64MinHeap{}
 	for j := 0; j < m; j++ {
 		id := vpU64("free")
-		vpAssume(vpAnd(id >= 1, id < t.next))
+		vpAssume(vpAnd(id >= t.base, id < t.next))
 		for _, o := range t.ids {
 			vpAssume(id != o)
 		}
@@ -82,15 +91,17 @@ func (t *vpTable) invariant(tag string) {
 		back, found := fm.pathHandles[node.path]
 		vpAssert(found, tag+"-path-index-complete")
 		vpAssert(back == id, tag+"-path-index-inverse")
-		vpAssert(id < fm.nextHandle, tag+"-ids-below-next")
+		vpAssert(vpAnd(id >= t.base, id < fm.nextHandle), tag+"-ids-below-next")
 		cnt++
 	}
+	// density: live and free ids together fill [base, nextHandle)
+	vpAssert(uint64(cnt+fm.freeHandles.Len()) == fm.nextHandle-t.base, tag+"-ids-dense")
 	vpAssert(len(fm.pathHandles) == cnt, tag+"-path-index-no-extras")
 	// free ids are not live and below next
 	for _, fid := range *fm.freeHandles {
 		_, live := fm.handles[fid]
 		vpAssert(!live, tag+"-free-and-live-disjoint")
-		vpAssert(fid < fm.nextHandle, tag+"-free-below-next")
+		vpAssert(vpAnd(fid >= t.base, fid < fm.nextHandle), tag+"-free-below-next")
 	}
 }
 
